@@ -104,7 +104,12 @@ def run(ck):
     cases = J.run_harness(ck, "c09", n)
     accepted = 0
     shrunk = set()
-    for c in cases:
+    for k, c in enumerate(cases):
+        if c["op"] == "hold":
+            ck.coverage["results_held_across_later_cases"] = ck.coverage.get("results_held_across_later_cases", 0) + (c["obs"].get("n") or 0)
+            if not J.crash_kind(c["obs"]):
+                J.hold_oracle(ck, cases, k)
+                continue
         o = c["obs"]
         trivial = len(bytes.fromhex(c["in"])) == 0 or (c["op"] in ("tojson", "unmarshal") and not o.get("ok")
                                                        and not c.get("reject"))
